@@ -203,6 +203,8 @@ def exec_op(ctx: Ctx, op: dict, rec: dict) -> Any:
                 tx.append_files([df])
             return True
         rows = mkrows(op["tag"], op.get("n", 1))
+        if op.get("fieldless"):
+            rows = [{}, {}]      # a batch whose records carry no field at all: no schema can be derived from it
         res["appends"] = [rows]
         sname = op.get("schema")
         sch = schema(1, SCHEMAS[sname]) if sname else None
@@ -361,15 +363,22 @@ def exec_op(ctx: Ctx, op: dict, rec: dict) -> Any:
             return None
         form = "/" + p if op.get("slash", True) else p
         res["deletes"] = [p]
+        forms = [form]
+        if "k2" in op:
+            # one delete_files() call naming a SECOND file (possibly of another manifest)
+            p2 = _resolve_index(paths, op["k2"])
+            if p2 is not None and p2 != p:
+                res["deletes"] = [p, p2]
+                forms.append(p2 if op.get("slash", True) else "/" + p2)
         if op.get("with_append"):
             rows = mkrows(op["tag"], op.get("n", 1))
             res["appends"] = [rows]
             with t.new_transaction() as tx:
-                tx.delete_files([form])
+                tx.delete_files(forms)
                 tx.append_data(rows)
             return True
         with t.new_transaction() as tx:
-            tx.delete_files([form])
+            tx.delete_files(forms)
         return True
     if kind == "expire":
         st = w.state(deep=False)
